@@ -104,7 +104,13 @@ def _build(spec, task_overrides, ns, m):
             wo = ns.BaseWorker(w["name"], ID=fresh(w["id"]), cost_per_time=w["cost"], solo_working=w["solo"],
                                workamount_skill_mean_map=dict(w["skills"]), facility_skill_map=dict(w["fskills"]),
                                absence_time_list=list(w["absence"]), main_workplace_id=fresh(w["main_wp"]))
-            team.add_worker(wo)
+            if w.get("loan_team") is not None:
+                # a worker "on loan": listed by this team, but team_id names another team (the
+                # allocator decides by team_id); BaseTeam(worker_list=...) keeps a team_id that is set
+                wo.team_id = fresh(spec["teams"][w["loan_team"]]["id"])
+                team.worker_list.append(wo)
+            else:
+                team.add_worker(wo)
             m.workers[w["id"]] = wo
         if not tm.get("ctor_targets"):
             for i in tm["targets"]:
